@@ -71,7 +71,10 @@ func instantiate(s Scenario, r *rand.Rand, tok0 int) (b *Built, err error) {
 		b.FiltersAtCtor = true
 	}
 	b.Defaults = defaults
-	if s.Mode != "convert" && s.Mode != "convcall" && s.Bad == "" {
+	// every other target is constructed from a private copy of the default options that the harness overwrites as soon
+	// as NewFunc has returned (the list belongs to the caller); the others share the array with a sibling function
+	private := r.Intn(2) == 0
+	if s.Mode != "convert" && s.Mode != "convcall" && s.Bad == "" && !private {
 		// a sibling function whose options are the same array, one element longer (as two functions configured from a
 		// common prefix with append are): nothing done with the target may change what the sibling was given
 		b.Sibling, _ = am.NewFunc(func(x sibT) int { return x.ID }, append(defaults, am.Typed(sibT{ID: sibID}))...)
@@ -79,7 +82,15 @@ func instantiate(s Scenario, r *rand.Rand, tok0 int) (b *Built, err error) {
 	if s.Mode != "convert" && s.Mode != "convcall" {
 		// a target with defaults is now and then constructed through NewFuncList
 		env.ViaList = s.Target.Form != "built" && len(defaults) > 0 && r.Intn(4) == 0
-		b.Target, err = env.Build(0, s.Target, defaults...)
+		if private {
+			mine := append(make([]am.Arg, 0, len(defaults)), defaults...)
+			b.Target, err = env.Build(0, s.Target, mine...)
+			for i := range mine {
+				mine[i] = nil
+			}
+		} else {
+			b.Target, err = env.Build(0, s.Target, defaults...)
+		}
 		env.ViaList = false
 		if err != nil {
 			return b, fmt.Errorf("newfunc target: %w", err)
@@ -143,6 +154,11 @@ func (b *Built) Args(r *rand.Rand) []am.Arg {
 	case "nilvalue":
 		out = append(out, am.Named("zz", nil), am.Typed(nil), am.NamedSubtype("zz", nil, "s"), am.TypedSubtype(nil, "s"), am.ConverterFunc(nil),
 			am.Logger(nil), am.ConverterGen(nil), am.FilterInput(nil), am.FilterOutput(nil))
+	case "cyclic":
+		// a value that contains itself (legal Go; printing it with %v never ends): supplied, needed by nobody
+		m := cyclicMap{}
+		m["self"] = m
+		out = append(out, am.Typed(m))
 	case "typednil":
 		// a nil pointer of the first parameter's (pointer) type, given last under that parameter's key
 		if l := b.S.Target.In[0]; true {
@@ -157,7 +173,12 @@ func (b *Built) Args(r *rand.Rand) []am.Arg {
 	case "nonfunc":
 		out = append(out, am.Converter(42))
 	case "nilconv":
-		out = append(out, am.Converter(nil))
+		if r.Intn(2) == 0 {
+			out = append(out, am.Converter(nil))
+		} else {
+			// a nil value of a function type is no function either
+			out = append(out, am.Converter((func(T1) T2)(nil)))
+		}
 	}
 	if b.S.Mode == "redefine" && !b.FiltersAtCtor {
 		out = append(out, filterArgs(b.S)...)
@@ -371,6 +392,8 @@ func (b *Built) concurrentRedefined(g int, opts []am.Arg) {
 	b.Env.mu.Unlock()
 }
 
+type cyclicMap map[string]interface{}
+
 type sibT struct{ ID int }
 
 const sibID = 424242
@@ -489,6 +512,10 @@ func (b *Built) Execute(r *rand.Rand) {
 	case "redefine":
 		before := env.Execs
 		nf, err := b.Target.Redefine(args...)
+		// the option list belongs to the caller: once Redefine has returned it may be reused for something else
+		for i := range args {
+			args[i] = nil
+		}
 		rd := EvRedef{Ev: "redef", OK: err == nil, Inputs: []Label{}, Given: []Label{}, Given2: []Label{}, Toks: []int{}, Toks3: []int{}, Execs: env.Execs - before}
 		if err != nil {
 			rd.Detail = firstLine(err.Error())
